@@ -5,7 +5,7 @@ package world
 
 import (
 	"fmt"
-	
+
 	"github.com/cloudwego/frugal/verifharness/model"
 )
 
@@ -468,7 +468,7 @@ func deriveC08(rs *RunSpec, b *Bank, r *model.Rng) {
 		byType[op.Type] = append(byType[op.Type], id)
 	}
 	var steady []uint64 // operations on types used in earlier rounds
-	rs.Rounds = 3 + r.Intn(4)
+	rs.Rounds = 6 + r.Intn(7)
 	rs.Sched.StartAt = make([]int64, rs.Tasks*rs.Rounds)
 	slot := 0
 	for round := 0; round < rs.Rounds; round++ {
